@@ -21,6 +21,10 @@ X86 = [
     ("addl", ["e", "e"], ["s", "sd"], [], ALLF), ("subl", ["e", "e"], ["s", "sd"], [], ALLF),
     ("addq", ["i", "g"], ["s", "sd"], [], ALLF), ("subq", ["i", "g"], ["s", "sd"], [], ALLF),
     ("xorq", ["g", "g"], ["s", "sd"], [], ALLF),
+    ("xorq", ["i", "g"], ["s", "sd"], [], ALLF), ("andq", ["i", "g"], ["s", "sd"], [], ALLF),
+    ("orq", ["i", "g"], ["s", "sd"], [], ALLF), ("testq", ["i", "g"], ["s", "s"], [], ALLF),
+    ("xorq", ["mL", "g"], ["s", "sd"], [], ALLF), ("addq", ["mL", "g"], ["s", "sd"], [], ALLF),
+    ("andq", ["mL", "g"], ["s", "sd"], [], ALLF), ("subq", ["mL", "g"], ["s", "sd"], [], ALLF),
     ("movq", ["g", "g"], ["s", "d"], [], []), ("movl", ["e", "e"], ["s", "d"], [], []),
     ("movq", ["i", "g"], ["s", "d"], [], []),
     ("movq", ["mL", "g"], ["s", "d"], [], []), ("movq", ["g", "mS"], ["s", "d"], [], []),
